@@ -282,7 +282,7 @@ func c03RunCR(c *Ctx, word string) {
 		args.Logger = "none"
 		args.LogLevel = "error"
 		StartEnv(source.Server, &args, nil)
-		for _, pat := range []string{"y$", "^$", "\\r$", "\\r", "\\s$", "^.{6}$", "M y$", "[^y]$", "^\\r?$"} {
+		for _, pat := range []string{"y$", "^$", "\\r$", "\\r", "\\s$", "^.{6}$", "M y$", "[^y]$", "^\\r?$", ".+", "..*", ".?", "^.*$", "^", "$", "(.*)", ".{0,}", ". ", "\\."} {
 			for _, inv := range []bool{false, true} {
 				for _, ltx := range [][3]int{{0, 0, 0}, {1, 0, 0}, {0, 1, 1}, {1, 1, 2}} {
 					c03Check(c, path, c03Case{Word: word, Pattern: pat, Invert: inv, Before: ltx[0], After: ltx[1], Max: ltx[2]})
@@ -322,7 +322,7 @@ func init() {
 	Register(&Check{
 		ID:    "C03",
 		Level: "exploration",
-		Rule: "files are all words over {matching line, non-matching line} up to length 8 (quick) / 11 (thorough), plus all files of <=4 lines over {matching, CR-terminated, empty, CR-only} with 9 line-end-sensitive patterns, plus 6 files of 150-400 lines (longer than the reader's internal queues of 100) with before in {0,99,100,101,120,250} x after in {0,1,100,101,130} x max in {0,1,2}; for each word the full product " +
+		Rule: "files are all words over {matching line, non-matching line} up to length 8 (quick) / 11 (thorough), plus all files of <=4 lines over {matching, CR-terminated, empty, CR-only} with 9 line-end-sensitive patterns and 10 near-match-all spellings (.+ ..* .? ^.*$ ^ $ (.*) .{0,} ...) that must NOT be treated as the three no-op spellings, plus 6 files of 150-400 lines (longer than the reader's internal queues of 100) with before in {0,99,100,101,120,250} x after in {0,1,100,101,130} x max in {0,1,2}; for each word the full product " +
 			"before x after x max in {0,1,2,3,9}^3 x invert, plus 20 further patterns (anchored at one or both ends incl. whole-line literals, a class, flags, alternation, the no-op spellings '', '.', '.*', patterns with leading/trailing blanks) on 6 contexts; the real CatFile reader " +
 			"(regex passed through Serialize/Deserialize as on the wire) runs under the controlled scheduler and is compared with the reference selector of the statement; " +
 			"non-trivial = expected output is neither empty nor the whole file",
